@@ -557,11 +557,14 @@ def account_records(rng, n=None):
             for j, r in enumerate(c.refs):
                 b.store_ref(keep_only(r, rest[1:]) if j == side else (pruned(r) if j < 2 else r))
             return b.end_cell()
+        views = []
         for a_, c_ in (accts + accts[::-1])[:4]:
             kb = [int(x) for x in bin(int.from_bytes(a_.hash_part, 'big'))[2:].rjust(256, '0')]
             view = begin_cell().store_bits(accounts.bits).store_ref(keep_only(accounts.refs[0], kb)).end_cell()
             st_view = begin_cell().store_bits(state.bits).store_ref(pruned(outq)).store_ref(view).store_ref(pruned(third)).end_cell()
-            cases.append(('genuine_account_other_paths_pruned', True, [roots[0], mproof(st_view)], blk, a_, c_))
+            views.append(('genuine_account_other_paths_pruned', True, [roots[0], mproof(st_view)], blk, a_, c_))
+        # (the narrow views come FIRST for this state: the first thing the process learns about it is one account's path)
+        cases = views + cases
     for label, genuine, rts, b, addr, claimed in cases:
         heap, ridx, _ = ck.project(rts)
         ah, ar, _ = ck.project([claimed])
